@@ -572,16 +572,18 @@ def gen_zero(tier):
         for i, y in enumerate(nz):
             for j, z in enumerate(zeros):
                 for o, op in enumerate(OPS):
-                    if (i + j + o) % Q(tier, 48 if big else 24, 3 if big else 1): continue
+                    if (i + j + o) % Q(tier, 48 if big else 24, 18 if big else 6): continue
                     for c in ((tname, op, y, z), (tname, op, z, y)):
                         if op == 'div' and _val(tname, c[3]) == 0: continue
                         if op in ARITH and not _in_domain(tname, exact_result(tname, op, c[2], c[3])): continue
                         yield c
         secz = [z for z in zeros if z[0] != 'p']
+        i = 0
         for a in zeros:                                               # both operands zero
             for b in secz:
                 for op in OPS:
-                    if op != 'div':
+                    i += 1
+                    if op != 'div' and not i % Q(tier, 7, 1):
                         yield (tname, op, a, b)
                         if a[0] == 'p': yield (tname, op, b, a)
 
@@ -636,7 +638,7 @@ def _mk_natives():
                           f'{dt}: ALL {nk} nonzero significands x ALL exponents, as (significand, exponent) pair and through the constructor secflt(float); 300 (thorough 3000) floats '
                           'that need rounding; zeros incl. -0.0 and zero with a nonzero exponent; ints; output of one number for every value, mpc.input of one number for every 7th, '
                           'output of a list [0, x, 1] for every 11th, mpc.input of a list with senders=0 for every 13th'))
-    for tname, n in (('s11e5', (240, 2400)), ('s24e8', (200, 3000)), ('s53e11', (100, 1600))):
+    for tname, n in (('s11e5', (240, 2400)), ('s24e8', (200, 2000)), ('s53e11', (100, 800))):
         dt = _domain_text(tname)
         for op in OPS:
             nn = n if op in ARITH else (n[0] // 2, n[1] // 2)
@@ -658,7 +660,7 @@ def _mk_natives():
     out.append(Native('zero_operand', f'{SF}.__add__', call_op, ck_zero, gen_zero,
                       'types ' + ', '.join(ZERO_TYPES) + ': zero as secflt(0), secflt(0.0), secflt(-0.0), public 0 / 0.0, and (0, exponent) pairs with exponents 0, 4, -3, min, max, against '
                       'nonzero operands with boundary and random significands at ~20 exponents from min to max; all ten operators (division only with zero dividend), both '
-                      'operand orders; both operands zero; quick: every 24th (s53: 48th) combination, thorough: all (s53: every 3rd)'))
+                      'operand orders; both operands zero in every pair of forms (quick: every 7th); quick: every 24th (s53: 48th) combination, thorough: every 6th (s53: 18th)'))
     out.append(Native('near_pow2', f'{SF}.__init__', call_io, ck_pow2, gen_pow2,
                       'constructor + output for 2^k, the three floats above and below 2^k (both signs) and the ints 2^k-1, 2^k, 2^k+1 (2 <= k <= 200): SecFlt(s=8,e=5) every k, '
                       'SecFlt(s=24,e=8) every 3rd (thorough every) k, SecFlt(s=53,e=11) every 23rd (3rd) k in -1021..1022'))
